@@ -5,6 +5,7 @@ package main
 // `trusted_base` through Interp.note.
 
 import (
+	"fmt"
 	"go/ast"
 	"go/constant"
 	"go/types"
@@ -791,6 +792,69 @@ func init() {
 	externs[db+"Iterator.Release"] = func(f *Frame, call *ast.CallExpr, recv Val, args []Val, st *State) []Val {
 		return nil
 	}
+	// set.Bits (a shared big.Int bit set) declared opaque: membership predicate with functional updates
+	bitsSort := func(f *Frame) string {
+		for k := range f.in.W.opaqueTypes {
+			if strings.HasSuffix(k, "avalanchego/utils/set.Bits") {
+				return "O_" + sanitize(k)
+			}
+		}
+		return ""
+	}
+	externs["github.com/ava-labs/avalanchego/utils/set.NewBits"] = func(f *Frame, call *ast.CallExpr, recv Val, args []Val, st *State) []Val {
+		in := f.in
+		bs := bitsSort(f)
+		if bs == "" || len(args) != 0 && !(len(args) == 1 && isEmptySlice(args[0])) {
+			in.unsupported(call.Pos(), "set.NewBits: needs `type github.com/ava-labs/avalanchego/utils/set.Bits opaque` and no initial bits")
+		}
+		in.D.declareSort(bs)
+		in.D.declareFun("bits_contains", []string{bs, SInt}, SBool)
+		in.D.declareFun("bits_len", []string{bs}, SInt)
+		b := in.D.fresh("bits", bs)
+		j := Term{S: "j", Sort: SInt}
+		st.assume(Forall([]Term{j}, Not(App("bits_contains", SBool, b, j)), []Term{App("bits_contains", SBool, b, j)}))
+		st.assume(Eq(App("bits_len", SInt, b), IntLit(0)))
+		in.note("set.Bits modelled as a membership predicate with functional updates (opaque)")
+		return []Val{Sc{b}}
+	}
+	externs["github.com/ava-labs/avalanchego/utils/set.(Bits).Add"] = func(f *Frame, call *ast.CallExpr, recv Val, args []Val, st *State) []Val {
+		in := f.in
+		r, ok := recv.(Sc)
+		sel, isSel := ast.Unparen(call.Fun).(*ast.SelectorExpr)
+		if !ok || !isSel {
+			in.unsupported(call.Pos(), "set.Bits.Add on %T", recv)
+		}
+		id, isId := ast.Unparen(sel.X).(*ast.Ident)
+		if !isId {
+			in.unsupported(call.Pos(), "set.Bits.Add: receiver must be a variable (the bit set is shared by reference; the variable is rebound to the updated set)")
+		}
+		in.D.declareFun("bits_contains", []string{r.T.Sort, SInt}, SBool)
+		in.D.declareFun("bits_len", []string{r.T.Sort}, SInt)
+		nb := in.D.fresh("bits", r.T.Sort)
+		i := args[0].(Sc).T
+		j := Term{S: "j", Sort: SInt}
+		st.assume(Forall([]Term{j}, Eq(App("bits_contains", SBool, nb, j), Or(Eq(j, i), App("bits_contains", SBool, r.T, j))), []Term{App("bits_contains", SBool, nb, j)}))
+		st.assume(Lt(IntLit(0), App("bits_len", SInt, nb)))
+		f.assign(id, Sc{nb}, st)
+		in.note("set.Bits.Add: aliases of the bit set held in OTHER variables are not updated (assumption: none observed afterwards)")
+		return nil
+	}
+	externs["github.com/ava-labs/avalanchego/utils/set.(Bits).Len"] = func(f *Frame, call *ast.CallExpr, recv Val, args []Val, st *State) []Val {
+		r := recv.(Sc)
+		f.in.D.declareFun("bits_len", []string{r.T.Sort}, SInt)
+		return []Val{Sc{App("bits_len", SInt, r.T)}}
+	}
+	externs["github.com/ava-labs/avalanchego/utils/set.(Bits).BitLen"] = externs["github.com/ava-labs/avalanchego/utils/set.(Bits).Len"]
+	externs["github.com/ava-labs/avalanchego/utils/set.NewSet"] = func(f *Frame, call *ast.CallExpr, recv Val, args []Val, st *State) []Val {
+		// an empty set.Set[T] (map[T]struct{})
+		t := f.resolve(f.pkg.TypesInfo.Types[call].Type)
+		in := f.in
+		c := in.newCell("set", CMap, t)
+		ks := in.sortOf(t.Underlying().(*types.Map).Key())
+		vs := in.sortOf(t.Underlying().(*types.Map).Elem())
+		st.store[c] = MapC{Has: Term{S: fmt.Sprintf("((as const (Array %s Bool)) false)", ks), Sort: MapSortOf(ks, SBool)}, Val: in.D.fresh("setval", MapSortOf(ks, vs)), Card: IntLit(0)}
+		return []Val{MapV{M: c, Nil: TFalse}}
+	}
 	externs["github.com/ava-labs/avalanchego/utils/set.(Bits).Contains"] = func(f *Frame, call *ast.CallExpr, recv Val, args []Val, st *State) []Val {
 		r, ok := recv.(Sc)
 		if !ok {
@@ -905,6 +969,9 @@ func init() {
 		f.in.note("set.Set.Add/Contains modelled on the map model (set.Set[T] is map[T]struct{})")
 		return nil
 	}
+	externs["github.com/ava-labs/avalanchego/utils/set.(*Set).Contains"] = func(f *Frame, call *ast.CallExpr, recv Val, args []Val, st *State) []Val {
+		return externs["github.com/ava-labs/avalanchego/utils/set.(Set).Contains"](f, call, recv, args, st)
+	}
 	externs["github.com/ava-labs/avalanchego/utils/set.(Set).Contains"] = func(f *Frame, call *ast.CallExpr, recv Val, args []Val, st *State) []Val {
 		m, ok := setMap(f, recv, st)
 		if !ok {
@@ -937,4 +1004,9 @@ func init() {
 		st.assume(Eq(Eq(e, in.errNil()), And(allNil...)))
 		return []Val{Sc{e}}
 	}
+}
+
+func isEmptySlice(v Val) bool {
+	sl, ok := v.(SliceV)
+	return ok && sl.Len.IsLit() && sl.Len.lit.Sign() == 0
 }
